@@ -137,14 +137,15 @@ theorem file_entry_size (c : SiteCfg) (st : StatFn) (sel : Str) (d : Bytes) (e :
     answers a selector with a document, the response of each protocol is its header text
     followed by one piece: the bytes of the file, unchanged. -/
 theorem document_bytes_every_protocol (c : ServeCfg) (st : StatFn) (rq : Parsed) (e : Entry) (d : Bytes)
-    (hh : handled c st rq.selector = .document e d) (hi : rq.geminiInput = none) (hb : rq.badRequest = false) :
+    (hh : handled c st rq.selector = .document e d) (hi : rq.geminiInput = none) (hb : rq.badRequest = false)
+    (hicon : isPrefixB (lit "/PYGOPHERD-HTTPPROTO-ICONS/") rq.selector = false) :
     respondParsed c st .gopher rq = some [.bytes d] ∧
     respondParsed c st .sgopher rq = some [.bytes d] ∧
     respondParsed c st .gemini rq = some [.text (statusLine (lit "20") (geminiAdjust e.mimetype)), .bytes d] ∧
     respondParsed c st .spartan rq = some [.text (statusLine (lit "2") (geminiAdjust e.mimetype)), .bytes d] ∧
     (rq.head = false → respondParsed c st .http rq = some [.text (httpHeaders none (httpAdjust e.mimetype)), .bytes d]) ∧
     (rq.head = true → respondParsed c st .http rq = some [.text (httpHeaders none (httpAdjust e.mimetype))]) := by
-  simp [respondParsed, hh, hi, hb, Wire.ofProto]
+  simp [respondParsed, hh, hi, hb, Wire.ofProto, hicon]
 
 /-- **Gopher+ `+` and `$` on a document: truthful length, then the bytes.**  The status line
     carries the file's exact length and the body read back from the response is the file. -/
@@ -162,26 +163,42 @@ theorem gplus_document_end_to_end (c : ServeCfg) (st : StatFn) (rq : Parsed) (e 
     rw [copy_is_identity] at this
     simpa [flattenPieces, Piece.raw, gplusDoc] using this
 
-/-- HTTP HEAD is the GET response without its body piece -/
-theorem head_end_to_end (c : ServeCfg) (st : StatFn) (rq : Parsed) (ps : List Piece)
-    (h : respondParsed c st .http { rq with head := true } = some ps) :
-    ∃ qs, respondParsed c st .http { rq with head := false } = some qs ∧
-      flattenPieces ps <+: flattenPieces qs := by
-  unfold respondParsed at h ⊢
-  simp only at h ⊢
-  split at h
-  · cases h
-  · rename_i hcond
-    simp only [hcond, if_false]
-    simp only [Wire.ofProto] at h ⊢
-    cases hh : handled c st rq.selector with
-    | notFound m => simp only [hh] at h ⊢; exact ⟨_, rfl, by cases h; exact List.prefix_refl _⟩
-    | document e d =>
-      simp only [hh, if_true, Bool.false_eq_true, if_false] at h ⊢
-      cases h
-      exact ⟨_, rfl, by simp [flattenPieces, Piece.raw]⟩
-    | menu s es => simp [hh] at h
-    | crash => simp [hh] at h
+/-- **HTTP HEAD is the GET response cut after its header**: for every request that both forms
+    answer — documents, directory pages and not-found alike — the bytes of the HEAD response are
+    a prefix of the bytes of the GET response (and for documents and menus they are exactly the
+    header: `document_bytes_every_protocol`). -/
+theorem head_end_to_end (c : ServeCfg) (st : StatFn) (rq : Parsed) (ps qs : List Piece)
+    (h : respondParsed c st .http { rq with head := true } = some ps)
+    (h2 : respondParsed c st .http { rq with head := false } = some qs) :
+    flattenPieces ps <+: flattenPieces qs := by
+  by_cases hc1 : (rq.geminiInput.isSome || rq.badRequest) = true
+  · simp [respondParsed, hc1] at h
+  · by_cases hc2 : isPrefixB (lit "/PYGOPHERD-HTTPPROTO-ICONS/") rq.selector = true
+    · simp [respondParsed, hc2, Wire.ofProto] at h
+    · have hc1' : (rq.geminiInput.isSome || rq.badRequest) = false := by simpa using hc1
+      have hc2' : isPrefixB (lit "/PYGOPHERD-HTTPPROTO-ICONS/") rq.selector = false := by simpa using hc2
+      cases hh : handled c st rq.selector with
+      | notFound m =>
+        simp [respondParsed, hc1', hc2', Wire.ofProto, hh] at h h2
+        rw [← h, ← h2]; exact List.prefix_refl _
+      | document e d =>
+        simp [respondParsed, hc1', hc2', Wire.ofProto, hh] at h h2
+        rw [← h, ← h2]; simp [flattenPieces, Piece.raw]
+      | crash => simp [respondParsed, hc1', hc2', Wire.ofProto, hh] at h
+      | menu self es =>
+        by_cases hpt : c.pagetopper = true
+        · simp [respondParsed, hc1', hc2', Wire.ofProto, hh, hpt] at h
+        · have hpt' : c.pagetopper = false := by simpa using hpt
+          simp [respondParsed, hc1', hc2', Wire.ofProto, hh, hpt'] at h h2
+          cases hl : listingBody c.render View.http false self es with
+          | none => simp [hl] at h2
+          | some r =>
+            cases hu : self.geturl c.render.srv.name c.render.srv.port with
+            | none => simp [hl, hu] at h2
+            | some u =>
+              simp [hl, hu] at h2
+              rw [← h, ← h2]
+              simp [flattenPieces, Piece.raw, List.append_assoc]
 
 /-! ### WAP text conversion is losslessly invertible line by line -/
 
